@@ -8,7 +8,7 @@ from lib.kernel import Kernel, Unrecognised, show
 from lib.dispatch import dispatchers
 
 TECHNIQUE = ("kernel normal form with a copy_into(dst, offset) primitive: block order and offset = sum of the previous copies, per concatenation struct; "
-             "structural check of the guarded pushes in matrix_row()/matrix(); kind-ladder comparison of the horzcat and vertcat dispatchers")
+             "MIR-level, path-sensitive check that every push of a block in matrix_row()/matrix() (or a private helper) lies behind the agree edge of the extent comparison, the (re)definition of the reference shape or the accumulator-empty edge (rules/c11_guard.py); kind-ladder comparison of the horzcat and vertcat dispatchers")
 EXPLANATION = (
     "Decides structural clauses of C11: (R1) matrix_row() only accepts a block whose row count equals the first block's and matrix() only a row whose column "
     "count equals the first row's, every other case exits with Err before MatrixHorzCat / MatrixVertCat is compiled; (R3) each fixed-arity concatenation "
@@ -28,66 +28,15 @@ def flatten_sum(v):
     return [v]
 
 
-def if_chain(e):
-    """[(cond or None, block)] of an if / else-if / else chain"""
-    out = []
-    while is_node(e) and e[0] == "if":
-        out.append((e[1], e[2]))
-        e = e[3]
-    if e is not None:
-        out.append((None, e[1] if is_node(e) and e[0] == "block" else [["expr", e, False]]))
-    return out
-
-
 def run(F, rep, tier):
     crate = "mech_interpreter.lib"
     items = F.syn(crate)
     rep.rule("C11-R1", "shape agreement: guarded pushes in matrix_row()/matrix(), Err otherwise")
     rep.rule("C11-R2", "vertcat and horzcat dispatchers cover the same element kinds")
     rep.rule("C11-R3", "copy kernels: field order, running offset = sum of previous copies, copy primitive per orientation")
-    for fn, dim, nfc in (("matrix_row", "0", "MatrixHorzCat"), ("matrix", "1", "MatrixVertCat")):
-        it = [x for x in items if x["k"] == "fn" and x["name"] == fn and x["mod"].endswith("structures")]
-        if not rep.check(len(it) == 1, "C11-R1", "anchor:%s" % fn, "%s not found" % fn):
-            continue
-        it = it[0]
-        loops = [f for f in find(it["body"], "for") if re.search(r"\.(columns|rows)\b", render(f[2]))]
-        if not rep.check(len(loops) == 1, "C11-R1", "%s:block-loop" % fn, "%s: expected one loop over the blocks, found %d" % (fn, len(loops))):
-            continue
-        lp = loops[0]
-        rep.check(not re.search(r"rev\(\)", render(lp[2])), "C11-R1", "%s:forward" % fn, "%s iterates its blocks in reverse" % fn)
-        chains = [if_chain(n) for n in lp[3] if False]
-        top_ifs = [st[1] for st in lp[3] if st[0] == "expr" and is_node(st[1]) and st[1][0] == "if"]
-        pushes_total = [m for m in find(lp[3], "mcall") if m[2] == "push"]
-        guarded = 0
-        good_cmp = False
-        err_else = False
-        for e in top_ifs:
-            ch = if_chain(e)
-            for cond, blk in ch:
-                np_ = len([m for m in find(blk, "mcall") if m[2] == "push"])
-                if cond is not None:
-                    c = render(cond).replace(" ", "")
-                    m = re.search(r"shape\[(\d)\]==result\.shape\(\)\[(\d)\]|result\.shape\(\)\[(\d)\]==shape\[(\d)\]", c)
-                    if m:
-                        idx = [g for g in m.groups() if g is not None]
-                        if idx == [dim, dim]:
-                            good_cmp = True
-                        else:
-                            rep.bad("C11-R1", "%s:compares-dimension-%s" % (fn, "-".join(idx)), "%s compares dimension %s of the blocks, expected dimension %s on both sides" % (fn, idx, dim))
-                    guarded += np_
-                else:
-                    if np_ == 0 and re.search(r"return Err|Err\(", " ".join(render_stmt(s) for s in blk)):
-                        err_else = True
-                    else:
-                        guarded -= 1000
-        rep.check(good_cmp, "C11-R1", "%s:dimension-test" % fn, "%s has no `shape[%s] == result.shape()[%s]` test before accepting a block" % (fn, dim, dim), sample={"fn": fn, "dimension": dim})
-        rep.check(err_else, "C11-R1", "%s:mismatch-is-error" % fn, "%s: a block of a different size does not end in an Err" % fn)
-        rep.check(guarded == len(pushes_total) and guarded > 0, "C11-R1", "%s:pushes-guarded" % fn, "%s: a block is accepted outside the shape-test branches (%d of %d pushes guarded)" % (fn, guarded, len(pushes_total)))
-        # the concat compiler is compiled after the loop
-        idx = [i for i, st in enumerate(it["body"]) if any(x is lp for x in find(st, "for"))]
-        after = it["body"][idx[0] + 1:] if idx else []
-        rep.check(any(nfc in render_stmt(s) for s in after) and not any(nfc in render(x) for x in lp[3]), "C11-R1", "%s:concat-after-checks" % fn,
-                  "%s does not compile %s after (and only after) the block loop" % (fn, nfc))
+    # R1 is decided on the MIR (rules/c11_guard.py): path-sensitive, follows private helpers, independent of local names and of the syntactic form of the test
+    from rules import c11_guard
+    c11_guard.run(F, rep, crate)
     # ---- R3 kernels
     S = X.load_fxn_structs(F, [crate])
     n = 0
@@ -142,15 +91,27 @@ def run(F, rep, tier):
     rep.floor("C11-R3", "fixed-arity concatenation kernels", n, 8)
     # ---- R2 kind ladders: the `if ValueKind::is_compatible(target, ValueKind::K)` chains of the two dispatchers
     lad = {}
+    fns_by_mod = defaultdict(dict)
     for it in items:
-        if it["k"] == "fn" and re.fullmatch(r"impl_(horzcat|vertcat)_fxn", it["name"]):
-            kinds = set()
-            for c in find(it["body"], "call"):
-                if (path_of(c[1]) or "").endswith("is_compatible") and len(c[2]) == 2:
-                    k = path_of(c[2][1])
+        if it["k"] == "fn" and it.get("body"):
+            fns_by_mod[it["mod"]][it["name"]] = it
+
+    def ladder_kinds(it, depth=2):
+        """kinds K tested with `ValueKind::is_compatible(_, ValueKind::K)` in the dispatcher or in a private function of its module it calls (a ladder split into helpers)"""
+        kinds = set()
+        for c in find(it["body"], "call"):
+            pth = path_of(c[1]) or ""
+            if pth.endswith("is_compatible") and len(c[2]) == 2:
+                for arg in c[2]:
+                    k = path_of(arg)
                     if k and k.startswith("ValueKind::"):
                         kinds.add(k.split("::")[-1])
-            lad[it["name"]] = kinds
+            elif depth > 0 and "::" not in pth and pth in fns_by_mod[it["mod"]] and pth != it["name"] and not (fns_by_mod[it["mod"]][pth].get("vis") or "").startswith("pub"):
+                kinds |= ladder_kinds(fns_by_mod[it["mod"]][pth], depth - 1)
+        return kinds
+    for it in items:
+        if it["k"] == "fn" and re.fullmatch(r"impl_(horzcat|vertcat)_fxn", it["name"]):
+            lad[it["name"]] = ladder_kinds(it)
     rep.floor("C11-R2", "concatenation dispatchers", len(lad), 2)
     if len(lad) == 2:
         hk, vk = lad.get("impl_horzcat_fxn", set()), lad.get("impl_vertcat_fxn", set())
@@ -178,6 +139,9 @@ def run_r6(F, rep, tier="quick"):
     distinct = {}
     for it in items:
         distinct.setdefault((it["name"], json.dumps(it["body"])), []).append(it)
+    # private free functions of the module(s) that hold the copy methods: a step computation extracted into a helper is executed, not rejected
+    mods = {it["mod"] for it in items}
+    helpers = {x["name"]: x for x in F.syn("mech_core.lib") if x["k"] == "fn" and x.get("body") and x["mod"] in mods and not (x.get("vis") or "").startswith("pub")}
     rep.floor("C11-R6", "CopyMat copy methods", len(items), 12)
     big = tier == "thorough"
     RS = range(1, 8 if big else 6)
@@ -205,7 +169,7 @@ def run_r6(F, rep, tier="quick"):
                             R, C = r * c + extra, 1
                             exp = {off + i: ("elem", "src", i) for i in range(r * c)}
                             exp_ret = r * c
-                        m = Machine({"self": Mat("src", r, c), dstn: Mat("dst", R, C), offn: off})
+                        m = Machine({"self": Mat("src", r, c), dstn: Mat("dst", R, C), offn: off}, fns=helpers)
                         try:
                             ret = m.block(it["body"])
                         except NoEval as e:
